@@ -122,74 +122,86 @@ def unwrap_args(repo: Repo, chk: Check) -> None:
 
 
 # ------------------------------------------------------------------------- O2/O3 provider
-def _iov_shape(call: ast.Call, params: t.List[str], with_signature: bool) -> t.Optional[str]:
-    if not call.args or not isinstance(call.args[0], ast.List):
+def _iov_shape(ps: t.Any, call: ast.Call, with_signature: bool) -> t.Optional[str]:
+    """The IOV handed to the security context on one path: [sign(header), body, sign(trailer), header-buffer[, signature]]
+    with sign = sign_only when header signing was negotiated and data_readonly otherwise."""
+    if not call.args or not isinstance(call.args[0], (ast.List, ast.Tuple)):
         return "the IOV is not a list literal"
     el = call.args[0].elts
     if len(el) != 4:
         return f"the IOV has {len(el)} buffers, expected header, body, trailer, signature"
-    h, b, tr, sig = params[0], params[1], params[2], (params[3] if with_signature else None)
+    facts = ps.facts()
 
-    def tup(e: ast.expr, kind: str, name: str) -> bool:
-        return isinstance(e, ast.Tuple) and len(e.elts) == 2 and unparse(e.elts[0]) == kind and unparse(e.elts[1]) == name
+    def kind_ok(e: ast.expr) -> bool:
+        if isinstance(e, ast.IfExp):
+            return ps.text(e.test) == "sign_header" and ps.text(e.body).endswith("BufferType.sign_only") and ps.text(e.orelse).endswith("BufferType.data_readonly")
+        if "sign_header" in facts:
+            return ps.text(e).endswith("BufferType.sign_only")
+        if "not (sign_header)" in facts:
+            return ps.text(e).endswith("BufferType.data_readonly")
+        return False
 
-    if not tup(el[0], "sign_buffer_type", h):
-        return f"first IOV buffer is {unparse(el[0])}, expected (sign_buffer_type, {h})"
-    if unparse(el[1]) != b:
-        return f"second IOV buffer is {unparse(el[1])}, expected the data buffer {b}"
-    if not tup(el[2], "sign_buffer_type", tr):
-        return f"third IOV buffer is {unparse(el[2])}, expected (sign_buffer_type, {tr})"
+    def tup(e: ast.expr, name: str) -> bool:
+        return isinstance(e, ast.Tuple) and len(e.elts) == 2 and kind_ok(e.elts[0]) and ps.text(e.elts[1]) == name
+
+    if not tup(el[0], "header"):
+        return f"first IOV buffer is {ps.text(el[0])} (path: {sorted(facts)}), expected (sign_only if sign_header else data_readonly, header)"
+    if ps.text(el[1]) != "body":
+        return f"second IOV buffer is {ps.text(el[1])}, expected the data buffer body"
+    if not tup(el[2], "trailer"):
+        return f"third IOV buffer is {ps.text(el[2])} (path: {sorted(facts)}), expected (sign_only if sign_header else data_readonly, trailer)"
     if with_signature:
-        if not (isinstance(el[3], ast.Tuple) and unparse(el[3].elts[0]).endswith("BufferType.header") and unparse(el[3].elts[1]) == sig):
-            return f"fourth IOV buffer is {unparse(el[3])}, expected (BufferType.header, {sig})"
-    elif not unparse(el[3]).endswith("BufferType.header"):
-        return f"fourth IOV buffer is {unparse(el[3])}, expected BufferType.header"
+        if not (isinstance(el[3], ast.Tuple) and len(el[3].elts) == 2 and ps.text(el[3].elts[0]).endswith("BufferType.header") and ps.text(el[3].elts[1]) == "signature"):
+            return f"fourth IOV buffer is {ps.text(el[3])}, expected (BufferType.header, signature)"
+    elif not ps.text(el[3]).endswith("BufferType.header"):
+        return f"fourth IOV buffer is {ps.text(el[3])}, expected BufferType.header"
     return None
 
 
+def _buffer_data(ps: t.Any, e: t.Optional[ast.expr], call: ast.Call, idx: int) -> bool:
+    """e is `<call>.buffers[idx].data` (optionally `or b''`)."""
+    if e is None:
+        return False
+    k = ps.key(e)
+    base = f"{ps.key(call)}.buffers[{idx}].data"
+    return k in (base, f"{base} or b''")
+
+
 def provider(repo: Repo, chk: Check) -> None:
+    from sa.pathsum import Summary
+
     cls = repo.cls("_rpc._auth.AuthenticationProvider")
     for name, api, with_sig in (("unwrap", "unwrap_iov", True), ("wrap", "wrap_iov", False)):
         f = cls.methods.get(name)
         if f is None:
             raise AnalysisError(f"AuthenticationProvider.{name} vanished")
         chk.analysed(f)
-        g = build(f.node)
-        params = [p for p in f.params if p != "self"]
-        calls = [n for n in body_nodes(f.node) if isinstance(n, ast.Call) and unparse(n.func) == f"self.ctx.{api}"]
-        site = Site.of(f, calls[0] if calls else None, None if calls else f"{name}: {api} call")
-        if len(calls) != 1:
-            chk.ob("O2", site, False, f"{name} does not call self.ctx.{api} exactly once")
-            continue
-        call = calls[0]
-        why = _iov_shape(call, params, with_sig)
-        chk.ob("O2", site, why is None, "IOV = [sign(header), data(body), sign(trailer), header-buffer]" if why is None else why)
-        # sign_buffer_type = sign_only if sign_header else data_readonly
-        defs = [n for n in body_nodes(f.node) if isinstance(n, ast.Assign) and unparse(n.targets[0]) == "sign_buffer_type"]
-        okd = len(defs) == 1 and isinstance(defs[0].value, ast.IfExp) and unparse(defs[0].value.test) == params[-1] and unparse(defs[0].value.body).endswith("BufferType.sign_only") and unparse(defs[0].value.orelse).endswith("BufferType.data_readonly")
-        chk.ob("O2", Site.of(f, defs[0] if defs else None, None if defs else "sign_buffer_type"), okd, "header/trailer are sign_only iff header signing was negotiated" if okd else "sign_buffer_type is not 'sign_only if sign_header else data_readonly'")
-        # every normal return passes through the security context call
-        nid = g.first_of_stmt.get(next(s for s in f.node.body if any(x is call for x in ast.walk(s))))
-        rets = [p for p, lab in g.pred[g.ret]]
-        okr = nid is not None and all(g.dominates(nid, r) for r in rets)
-        chk.ob("O2", Site.of(f, construct=f"{name}: every return is dominated by {api}"), okr, "no path returns data that did not pass through the security context" if okr else f"{name} has a return path that bypasses self.ctx.{api}: data is accepted without verification")
-        if name == "unwrap":
-            for r in [n for n in body_nodes(f.node) if isinstance(n, ast.Return)]:
-                okv = r.value is not None and unparse(r.value).startswith("res.buffers[1].data")
-                chk.ob("O2", Site.of(f, r), okv, "returns the decrypted data buffer" if okv else f"unwrap returns {unparse(r.value)}, not the data buffer of the verified IOV")
-            res_def = [n for n in body_nodes(f.node) if isinstance(n, ast.Assign) and n.value is call and unparse(n.targets[0]) == "res"]
-            chk.ob("O2", site, bool(res_def), "result of unwrap_iov bound to res")
-        else:
-            enc = [kw for kw in call.keywords if kw.arg == "encrypt"]
-            oke = bool(enc) and isinstance(enc[0].value, ast.Constant) and enc[0].value.value is True
-            chk.ob("O3", site, oke, "wrap_iov(encrypt=True)" if oke else "wrap does not request encryption (encrypt=True)")
-            rets = [n for n in body_nodes(f.node) if isinstance(n, ast.Return)]
-            for r in rets:
-                v = r.value
-                parts = v.args[0].elts if isinstance(v, ast.Call) and unparse(v.func) == "b''.join" and v.args and isinstance(v.args[0], ast.List) else []
-                txt = [unparse(p) for p in parts]
-                okw = len(txt) == 4 and txt[0] == params[0] and txt[1].startswith("res.buffers[1].data") and txt[2] == params[2] and txt[3].startswith("res.buffers[3].data")
-                chk.ob("O3", Site.of(f, r), okw, "PDU = header || sealed body || trailer || signature" if okw else f"wrap returns {txt}, expected [header, res.buffers[1].data, trailer, res.buffers[3].data]")
+        ref = ["self", "header", "body", "trailer"] + (["signature"] if with_sig else []) + ["sign_header"]
+        summ = Summary(f, ref)
+        rets = summ.returning()
+        if not rets:
+            raise AnalysisError(f"AuthenticationProvider.{name}: no returning path")
+        for ps in rets:
+            calls = [c for c in ps.calls(api) if ps.text(t.cast(ast.Call, c.tree).func) == f"self.ctx.{api}"]
+            site = Site.of(f, calls[0].node if calls else ps.exit_node, None if calls else f"{name}: {api} call")
+            okr = len(calls) == 1
+            chk.ob("O2", Site.of(f, ps.exit_node, f"{name}: every return is dominated by {api}"), okr, "no path returns data that did not pass through the security context" if okr else f"{name} has a return path that {'bypasses' if not calls else 'repeats'} self.ctx.{api}: data is accepted without verification")
+            if not okr:
+                continue
+            call = t.cast(ast.Call, calls[0].tree)
+            why = _iov_shape(ps, call, with_sig)
+            chk.ob("O2", site, why is None, "IOV = [sign(header), data(body), sign(trailer), header-buffer]; header/trailer are sign_only iff header signing was negotiated" if why is None else why)
+            if name == "unwrap":
+                okv = _buffer_data(ps, ps.value, call, 1)
+                chk.ob("O2", Site.of(f, ps.exit_node), okv, "returns the decrypted data buffer" if okv else f"unwrap returns {ps.text(ps.value)}, not the data buffer of the verified IOV")
+            else:
+                enc = [kw for kw in call.keywords if kw.arg == "encrypt"]
+                oke = bool(enc) and isinstance(enc[0].value, ast.Constant) and enc[0].value.value is True
+                chk.ob("O3", site, oke, "wrap_iov(encrypt=True)" if oke else "wrap does not request encryption (encrypt=True)")
+                v = ps.value
+                parts = v.args[0].elts if isinstance(v, ast.Call) and unparse(v.func) == "b''.join" and v.args and isinstance(v.args[0], (ast.List, ast.Tuple)) else []
+                okw = len(parts) == 4 and ps.text(parts[0]) == "header" and _buffer_data(ps, parts[1], call, 1) and ps.text(parts[2]) == "trailer" and _buffer_data(ps, parts[3], call, 3)
+                chk.ob("O3", Site.of(f, ps.exit_node), okw, "PDU = header || sealed body || trailer || signature" if okw else f"wrap returns {[ps.text(p) for p in parts] or ps.text(v)}, expected [header, <sealed>.buffers[1].data, trailer, <sealed>.buffers[3].data]")
     # both trailers at PKT_PRIVACY
     for name in ("step", "get_empty_trailer"):
         f = cls.methods.get(name)
